@@ -35,32 +35,47 @@ def extract():
     need(re.search(r"let end_of_carats = std::cmp::min\( ?\(actual_span\.end as usize\)\.saturating_sub\(start_of_line\), line_len,? ?\);", fn), "end_of_carats")
     need(re.search(r"let prefix = &line_content\[0\.\.start_of_carats\]; let highlighted = &line_content\[start_of_carats\.\.end_of_carats\]; let suffix = &line_content\[end_of_carats\.\.\];", fn), "prefix / highlighted / suffix slices")
     need(re.search(r"if start_of_carats != line_len && end_of_carats != 0 \{", fn), "guard of the caret line")
-    i = fn.index("let mut carats = String::new();")
+    mi = need(re.search(r"let mut carats = String::(?:new\(\)|with_capacity\([^;]*\));", fn), "caret string")
+    i = mi.end()
     j = fn.index("output_lines.push(carats);", i)
-    body = fn[i:j]
-    loops = re.findall(r"for _ in ([^{]+?) \{ (.*?) \}(?= for _ in|$)", body.strip())
-    if len(loops) != 3:
-        raise Inconclusive("encoding not regenerable: expected three loops building the caret line, found %d" % len(loops))
+    body = fn[i:j].strip()
+    BYTE = {"0..start_of_carats": ("bytes", "0", "S"), "start_of_carats..end_of_carats": ("bytes", "S", "E"), "end_of_carats..line_len": ("bytes", "E", "L")}
+    CHARS = {"prefix.chars()": ("chars", "0", "S"), "highlighted.chars()": ("chars", "S", "E"), "suffix.chars()": ("chars", "E", "L"),
+             "line_content[..start_of_carats].chars()": ("chars", "0", "S"), "line_content[0..start_of_carats].chars()": ("chars", "0", "S"),
+             "line_content[start_of_carats..end_of_carats].chars()": ("chars", "S", "E"), "line_content[end_of_carats..].chars()": ("chars", "E", "L"),
+             "0..prefix.chars().count()": ("chars", "0", "S"), "0..highlighted.chars().count()": ("chars", "S", "E"), "0..suffix.chars().count()": ("chars", "E", "L")}
+    # counts usable in " ".repeat(n)
+    REPEAT = {"start_of_carats": ("bytes", "0", "S"), "prefix.len()": ("bytes", "0", "S"),
+              "end_of_carats - start_of_carats": ("bytes", "S", "E"), "highlighted.len()": ("bytes", "S", "E"),
+              "line_len - end_of_carats": ("bytes", "E", "L"), "suffix.len()": ("bytes", "E", "L"),
+              "prefix.chars().count()": ("chars", "0", "S"), "highlighted.chars().count()": ("chars", "S", "E"), "suffix.chars().count()": ("chars", "E", "L")}
+    CARET_BODY = r'carats\.push_str\(&format!\( ?"\{\}", if colorize_carats \{ "\^"\.bright_red\(\) \} else \{ "\^"\.normal\(\) \} ?\)\);'
     doms = []
-    for dom, b in loops:
-        dom = dom.strip()
-        if re.fullmatch(r"carats\.push\(' '\);", b.strip()):
-            ch = " "
-        elif re.fullmatch(r'carats\.push_str\(&format!\( ?"\{\}", if colorize_carats \{ "\^"\.bright_red\(\) \} else \{ "\^"\.normal\(\) \} ?\)\);', b.strip()) or re.fullmatch(r"carats\.push\('\^'\);", b.strip()):
-            ch = "^"
-        else:
-            raise Inconclusive("encoding not regenerable: loop body %r" % b[:120])
-        BYTE = {"0..start_of_carats": ("bytes", "0", "S"), "start_of_carats..end_of_carats": ("bytes", "S", "E"), "end_of_carats..line_len": ("bytes", "E", "L")}
-        CHARS = {"prefix.chars()": ("chars", "0", "S"), "highlighted.chars()": ("chars", "S", "E"), "suffix.chars()": ("chars", "E", "L"),
-                 "line_content[..start_of_carats].chars()": ("chars", "0", "S"), "line_content[0..start_of_carats].chars()": ("chars", "0", "S"),
-                 "line_content[start_of_carats..end_of_carats].chars()": ("chars", "S", "E"), "line_content[end_of_carats..].chars()": ("chars", "E", "L"),
-                 "0..prefix.chars().count()": ("chars", "0", "S"), "0..highlighted.chars().count()": ("chars", "S", "E"), "0..suffix.chars().count()": ("chars", "E", "L")}
-        if dom in BYTE:
-            doms.append((ch,) + BYTE[dom])
-        elif dom in CHARS:
-            doms.append((ch,) + CHARS[dom])
-        else:
-            raise Inconclusive("encoding not regenerable: loop domain %r is outside the supported subset" % dom)
+    rest = body
+    while rest:
+        m = re.match(r"for _ in ([^{]+?) \{ (carats\.push\(' '\);|carats\.push\('\^'\);|%s) \} ?" % CARET_BODY, rest)
+        if m:
+            dom, b_ = m.group(1).strip(), m.group(2)
+            ch = " " if b_ == "carats.push(' ');" else "^"
+            if dom in BYTE:
+                doms.append((ch,) + BYTE[dom])
+            elif dom in CHARS:
+                doms.append((ch,) + CHARS[dom])
+            else:
+                raise Inconclusive("encoding not regenerable: loop domain %r is outside the supported subset" % dom)
+            rest = rest[m.end():]
+            continue
+        m = re.match(r'carats\.push_str\(&"( |\^)"\.repeat\(([^;]+?)\)\); ?', rest)
+        if m:
+            cnt = m.group(2).strip()
+            if cnt not in REPEAT:
+                raise Inconclusive("encoding not regenerable: repeat count %r is outside the supported subset" % cnt)
+            doms.append((m.group(1),) + REPEAT[cnt])
+            rest = rest[m.end():]
+            continue
+        raise Inconclusive("encoding not regenerable: statement building the caret line: %r" % rest[:120])
+    if len(doms) != 3:
+        raise Inconclusive("encoding not regenerable: the caret line is built from %d pieces, expected 3" % len(doms))
     if [d[0] for d in doms] != [" ", "^", " "]:
         raise Inconclusive("encoding not regenerable: the caret line is not spaces, carets, spaces")
     X["loops"] = [list(d) for d in doms]
@@ -121,9 +136,30 @@ def main():
     os.makedirs(os.path.join(REPLAYS, PROP), exist_ok=True)
     try:
         binary = build_native("carats_driver")
+        PROBES = [([], [1, 1, 1], 0, 1), ([], [1, 1, 1, 1], 1, 3), ([3], [1, 1, 1], 2, 3), ([0, 2], [1, 1], 0, 2), ([], [2, 1, 1], 1, 2), ([1], [1, 3, 1], 1, 3),
+                  ([], [4, 1], 0, 1), ([2], [1, 2, 2, 1], 2, 4), ([], [1, 1, 2], 0, 1), ([1], [1, 3, 4], 0, 1), ([], [2, 4, 3, 1], 1, 2)]
+        # ---- stage 0 (not solver-decided; a guard that does not depend on the extractor): the probes through the real function
+        for pre, ws, a_, b_ in PROBES:
+            text, real, raw = real_caret_line(binary, pre, ws, a_, b_)
+            expected = " " * a_ + "^" * (b_ - a_) + " " * (len(ws) - b_)
+            if real != expected:
+                rp = os.path.join(REPLAYS, PROP, "probe_guard")
+                os.makedirs(rp, exist_ok=True)
+                pos_c = [sum(ws[:i]) for i in range(len(ws) + 1)]
+                base = sum(l + 1 for l in pre)
+                with open(os.path.join(rp, "input.json"), "w") as f:
+                    f.write(json.dumps({"text": text, "start": base + pos_c[a_], "end": base + pos_c[b_]}) + "\n")
+                with open(os.path.join(rp, "REPLAY.md"), "w") as f:
+                    f.write("Property C31 (native probe guard): text %r, span = characters [%d,%d) of the last line: caret line %r, expected %r\nRun: bash %s/replay.sh\n" % (text, a_, b_, real, expected, rp))
+                with open(os.path.join(rp, "replay.sh"), "w") as f:
+                    f.write("#!/bin/bash\n%s < %s/input.json\nexit 1\n" % (binary, rp))
+                violations.append(("native probe guard: text %r, span = characters [%d,%d) of its last line: caret line is %r, one caret per character would be %r" % (text, a_, b_, real, expected), rp))
+                samples.append({"text": text, "span_chars": [a_, b_], "real_caret_line": real, "expected": expected, "stage": "probe guard"})
+                break
         X = extract()
         # ---- translator validation: the extracted loop domains reproduce the real caret line on probes (ASCII and not)
-        probes = [([], [1, 1, 1], 0, 1), ([], [1, 1, 1, 1], 1, 3), ([3], [1, 1, 1], 2, 3), ([0, 2], [1, 1], 0, 2), ([], [2, 1, 1], 1, 2), ([1], [1, 3, 1], 1, 3), ([], [4, 1], 0, 1), ([2], [1, 2, 2, 1], 2, 4)]
+        probes = PROBES
+        _unused = [([], [1, 1, 1], 0, 1), ([], [1, 1, 1, 1], 1, 3), ([3], [1, 1, 1], 2, 3), ([0, 2], [1, 1], 0, 2), ([], [2, 1, 1], 1, 2), ([1], [1, 3, 1], 1, 3), ([], [4, 1], 0, 1), ([2], [1, 2, 2, 1], 2, 4), ([], [1, 1, 2], 0, 1), ([1], [1, 3, 4], 0, 1), ([], [2, 4, 3, 1], 1, 2)]
         for pre, ws, a, b in probes:
             text, real, raw = real_caret_line(binary, pre, ws, a, b)
             model = concrete_caret_line(X, ws, a, b)
